@@ -15,7 +15,7 @@ from ..cfg import CFG, EXIT
 from ..core import Ctx
 from ..model import AnalysisError, FuncInfo, dotted, kwarg, norm, walk_no_nested
 from ..zones import ZUnsupported, box_contains, nonneg, pair_domain, range_bounds, to_lin
-from .common import assigned_value, enclosing, stores_to
+from .common import assigned_value, enclosing, is_cmp, stores_to
 
 CAND = "AbstractDissimilarity._get_all_valid_alignments"
 PAIRK = "AbstractDissimilarity._compute_alignment_disorders"
@@ -446,8 +446,7 @@ def check_build_A(ctx: Ctx, rules: Dict[str, str]):
     ok_store = False
     if len(ifs) == 1:
         t = ifs[0].test
-        ok_null = isinstance(t, ast.Compare) and len(t.ops) == 1 and isinstance(t.ops[0], (ast.NotEq, ast.Lt)) and norm(t.left) == uid \
-            and norm(t.comparators[0]) == f"{sizes}[{aid}]"
+        ok_null = is_cmp(t, uid, "!=", f"{sizes}[{aid}]") or is_cmp(t, uid, "<", f"{sizes}[{aid}]")
         st = [s for s in ifs[0].body if isinstance(s, ast.Assign) and isinstance(s.targets[0], ast.Subscript)]
         if len(st) == 1 and norm(st[0].targets[0].value) == Am and isinstance(st[0].targets[0].slice, ast.Tuple):
             r, c = st[0].targets[0].slice.elts
